@@ -27,27 +27,33 @@ pub struct C16;
 // 2), so the bound is relative to the output scale.  Every operation of the transforms is
 // linear and homogeneous, so no absolute term is needed beyond guarding 0 <= 0.
 
-/// K per transform family, in units of max|diff| / (sqrt(N) * |c|_2).
-const K_TABLE: [(&str, f64); 11] = [
-    ("hornuss", 2.0e-7),
-    ("dct2x2", 4.0e-7),
-    ("dct4x4", 6.0e-7),
-    ("dct4x8/8x4", 1.2e-6),
-    ("afv", 6.0e-7),
-    ("dct8x8", 2.0e-6),
-    ("dct16", 8.0e-6),
-    ("dct32", 1.0e-5),
-    ("dct64", 2.0e-5),
-    ("dct128", 3.0e-5),
-    ("dct256", 6.0e-5),
+/// Tolerances per transform family: (family, K2, K1).  A sample may differ from the model by at most
+/// min(K2 * sqrt(N) * |c|_2, K1 * |c|_1) + ABS_FLOOR.  Both products bound the largest sample the
+/// block can produce (|sample| <= 2 |c|_1 <= 2 sqrt(N) |c|_2), so both are relative to the output
+/// scale; the l1 form is the sharper one for sparse blocks (an impulse), the l2 form for dense ones.
+const K_TABLE: [(&str, f64, f64); 11] = [
+    ("hornuss", 2.0e-7, 1.5e-6),
+    ("dct2x2", 4.0e-7, 3.0e-6),
+    ("dct4x4", 6.0e-7, 4.0e-6),
+    ("dct4x8/8x4", 1.2e-6, 7.0e-6),
+    ("afv", 6.0e-7, 3.0e-6),
+    ("dct8x8", 2.0e-6, 1.0e-5),
+    ("dct16", 8.0e-6, 2.5e-5),
+    ("dct32", 1.0e-5, 6.0e-5),
+    ("dct64", 2.0e-5, 1.2e-4),
+    ("dct128", 3.0e-5, 3.0e-4),
+    ("dct256", 6.0e-5, 5.0e-4),
 ];
-fn k_ref(t: usize) -> f64 {
+fn k_ref(t: usize) -> (f64, f64) {
     let f = family_name(t);
-    K_TABLE.iter().find(|e| e.0 == f).expect("family in table").1
+    let e = K_TABLE.iter().find(|e| e.0 == f).expect("family in table");
+    (e.1, e.2)
 }
-/// generic path vs arch path: half of the reference tolerance
-fn k_paths(t: usize) -> f64 {
-    k_ref(t) / 2.0
+/// Tolerance against the model for a block whose effective coefficients have the given norms;
+/// the generic and the arch path must agree within half of it.
+fn tol_ref(t: usize, n: usize, l2: f64, l1: f64) -> f64 {
+    let (k2, k1) = k_ref(t);
+    (k2 * (n as f64).sqrt() * l2).min(k1 * l1) + ABS_FLOOR
 }
 const ABS_FLOOR: f64 = 1e-12;
 /// |<r_a, r_b> - expected| <= K_GRAM * N * (|r_a| + |r_b|) for unit impulse responses.
@@ -428,6 +434,7 @@ struct BlockResult {
     generic: Vec<f64>,
     arch: Vec<f64>,
     eff_norm: f64,
+    tol: f64,
 }
 
 /// Compare one varblock of both outputs with the model and with each other.
@@ -444,7 +451,9 @@ fn verify_block(o: &mut Outcome, g: &GridSpec, outs: &[[Vec<f32>; 3]; 2], b: &Pl
     }
     let (want, eff) = idct::inverse_with_lf(b.t, &coeff, &lf);
     let eff_norm = l2(&eff);
+    let eff_l1: f64 = eff.iter().map(|x| x.abs()).sum();
     let scale = (n as f64).sqrt() * eff_norm;
+    let tol_model = tol_ref(b.t, n, eff_norm, eff_l1);
     let grab = |buf: &Vec<f32>| -> Vec<f64> {
         let mut px = vec![0.0f64; n];
         for y in 0..h {
@@ -457,21 +466,20 @@ fn verify_block(o: &mut Outcome, g: &GridSpec, outs: &[[Vec<f32>; 3]; 2], b: &Pl
     let generic = grab(&outs[0][b.chan]);
     let arch = grab(&outs[1][b.chan]);
     BLOCKS.fetch_add(1, Ordering::Relaxed);
-    let ctx = |i: usize| format!("sample ({}, {}) of {} block at ({}, {}) channel {} [{}], N={n} |c|={eff_norm:.6e}", i % w, i / w, ti.name, b.sbx, b.sby, b.chan, b.kind.name());
-    for (which, (a, bb, k)) in [(&generic, &want, k_ref(b.t)), (&arch, &want, k_ref(b.t)), (&generic, &arch, k_paths(b.t))].into_iter().enumerate() {
+    let ctx = |i: usize| format!("sample ({}, {}) of {} block at ({}, {}) channel {} [{}], N={n} |c|_2={eff_norm:.6e} |c|_1={eff_l1:.6e}", i % w, i / w, ti.name, b.sbx, b.sby, b.chan, b.kind.name());
+    for (which, (a, bb, tol)) in [(&generic, &want, tol_model), (&arch, &want, tol_model), (&generic, &arch, tol_model / 2.0)].into_iter().enumerate() {
         let name = ["generic-vs-definition", "arch-vs-definition", "generic-vs-arch"][which];
         let (d, i) = max_diff(a, bb);
-        let tol = k * scale + ABS_FLOOR;
         if scale > 0.0 && d.is_finite() {
             note_max(&MAX_RATIO[b.t][which], d / scale);
-            note_max(&MAX_RATIO1[b.t][which], d / eff.iter().map(|x| x.abs()).sum::<f64>());
+            note_max(&MAX_RATIO1[b.t][which], d / eff_l1);
         }
         if !(d <= tol) {
-            fail(o, format!("{}:{}", ti.name, name), format!("|{:.9e} - {:.9e}| = {:.3e} > tol {:.3e} (ratio to sqrt(N)|c| = {:.3e}) at {}", a[i], bb[i], d, tol, d / scale, ctx(i)));
+            fail(o, format!("{}:{}", ti.name, name), format!("|{:.9e} - {:.9e}| = {:.3e} > tol {:.3e} (ratio to sqrt(N)|c|_2 = {:.3e}, to |c|_1 = {:.3e}) at {}", a[i], bb[i], d, tol, d / scale, d / eff_l1, ctx(i)));
             return None;
         }
     }
-    Some(BlockResult { generic, arch, eff_norm })
+    Some(BlockResult { generic, arch, eff_norm, tol: tol_model })
 }
 
 /// Everything outside the processed varblocks must be bit-identical to what was put in.
@@ -506,7 +514,7 @@ fn verify_invariants(o: &mut Outcome, g: &GridSpec, b: &PlacedBlock, r: &BlockRe
     let (w, n) = (ti.width(), ti.num_samples());
     let ch = &g.chans[b.chan];
     let scale = (n as f64).sqrt() * r.eff_norm;
-    let tol = k_ref(b.t) * scale + ABS_FLOOR;
+    let tol = r.tol;
     let lf_at = |i: usize, j: usize| ch.lf[ch.lf_origin + (b.sby + j) * ch.lf_stride + b.sbx + i] as f64;
     for (name, px) in [("generic", &r.generic), ("arch", &r.arch)] {
         if b.kind == Kind::Zero {
@@ -544,7 +552,7 @@ fn verify_invariants(o: &mut Outcome, g: &GridSpec, b: &PlacedBlock, r: &BlockRe
             // Parseval: |samples|_2 = sqrt(N) |c|_2
             let got = l2(px);
             let rel = (got / scale - 1.0).abs();
-            if !(rel <= k_ref(b.t) * (n as f64).sqrt() * 2.0 + 1e-9) {
+            if !(rel <= k_ref(b.t).0 * (n as f64).sqrt() * 2.0 + 1e-9) {
                 fail(o, format!("{}:parseval:{name}", ti.name), format!("|samples| = {got:.9e}, sqrt(N)|c| = {scale:.9e}, relative difference {rel:.3e}"));
                 return;
             }
@@ -693,7 +701,20 @@ impl C16 {
             }
             let lf_stride = cw8 + src.below(4);
             let lf_origin = src.below(3);
-            let (vals, note) = gen_lf(src, cw8 * ch8);
+            let (mut vals, mut note) = gen_lf(src, cw8 * ch8);
+            if !shifted && tm.is_plain_dct() && tm.bw8 * tm.bh8 > 1 && src.chance(40) {
+                // the main block's LF window holds one basis function of the bw8 x bh8 DCT:
+                // a single LLF coefficient
+                let (bx0, by0, _) = cells[0];
+                let (u0, v0) = (src.below(tm.bw8), src.below(tm.bh8));
+                let amp = [1.0f64, -0.25, 300.0][src.below(3)];
+                for j in 0..tm.bh8 {
+                    for i in 0..tm.bw8 {
+                        vals[(by0 + j) * cw8 + bx0 + i] = (amp * idct::basis(tm.bw8, u0, i) * idct::basis(tm.bh8, v0, j)) as f32;
+                    }
+                }
+                note = "lf:single-llf-coefficient";
+            }
             lf_notes.push(note);
             let mut lf: Vec<f32> = (0..lf_origin + ch8 * lf_stride + 2).map(canary).collect();
             for y in 0..ch8 {
@@ -781,6 +802,16 @@ fn sweep_positions(t: usize, level: u8) -> Vec<usize> {
     for &(u, v) in &[(0, 0), (ti.bw8, 0), (0, ti.bh8), (ti.bw8 - 1, ti.bh8 - 1), (1, 1), (w - 1, 0), (0, h - 1), (w - 1, h - 1), (w / 2, h / 2), (w / 2 - 1, 1), (1, h / 2 + 1), (ti.bw8, ti.bh8)] {
         set.insert(v * w + u);
     }
+    // the LLF corner: both axes and the diagonal touch every ScaleF entry of either dimension;
+    // the thorough tier takes the whole corner
+    for v in 0..ti.bh8 {
+        for u in 0..ti.bw8 {
+            if level > 0 || u == 0 || v == 0 || u * ti.bh8 == v * ti.bw8 {
+                set.insert(v * w + u);
+            }
+        }
+    }
+    let count = count + set.len();
     let mut rng = Sm(0xC16 + t as u64);
     while set.len() < count.min(n) {
         // half of the draws hug the axes, where the recursion's odd/even split is deepest
@@ -838,8 +869,14 @@ fn run_sweep(t: usize, level: u8, o: &mut Outcome, describe: bool) {
             for (c, &a) in trio.iter().enumerate() {
                 let (u, v) = (a % w, a / w);
                 if u < ti.bw8 && v < ti.bh8 {
-                    // inside the LLF corner: the coefficient comes from the LF image
-                    lfs[c][v * ti.bw8 + u] = 1.0;
+                    // inside the LLF corner: the coefficient comes from the LF image; an LF image
+                    // that is the (u, v) basis function of the bw8 x bh8 DCT yields exactly that
+                    // one LLF coefficient (times 1 / ScaleF)
+                    for j in 0..ti.bh8 {
+                        for i in 0..ti.bw8 {
+                            lfs[c][j * ti.bw8 + i] = (idct::basis(ti.bw8, u, i) * idct::basis(ti.bh8, v, j)) as f32;
+                        }
+                    }
                 } else {
                     coeffs[c][a] = 1.0;
                 }
@@ -964,7 +1001,7 @@ impl Check for C16 {
         v
     }
     fn rule(&self) -> String {
-        format!("choice sequence -> block-info grid holding one main varblock (27 types, weights fall with size; optional 8x8-family filler varblocks; or a full tiling of 8x8-family types under a generated jpeg_upsampling triple) x per channel and varblock a coefficient block {{LF only, unit/scaled impulse at a generated position, sparse, dense, integer-valued with frequency decay, magnitudes to 2^40}} derived from a splitmix64 seeded from the choices x LF image {{zero, constant, random, 1e9-scale}} x buffer placement {{32-byte aligned, 16-byte aligned, origin offset by 1-3 floats, stride not a multiple of 4, window at (x0, y0) of a wider buffer}}; both entry points run on private copies. Fixed cases: per type a unit-impulse sweep (every position up to 32x32, a deterministic sample above; LLF-corner positions driven through the LF image) on an aligned and a misaligned placement with the Gram matrix of the responses. Oracle: |out - ref| <= K(family) * sqrt(N) * |c|_2 + {ABS_FLOOR:e} (K = {K_TABLE:?}) against jxlref::models::idct (f64, from the definitions; c = coefficients after LLF-from-LF), generic vs arch within K/2 * sqrt(N) * |c|_2; every buffer element outside the processed varblocks bit-identical; invariants without shared tables: LF-only block -> 8x8 box averages equal the LF samples (constant LF -> constant block), Parseval for plain DCTs, impulse responses orthogonal with the norms the definitions imply (|gram - expected| <= {K_GRAM:e} * N * (|r_a| + |r_b|)). Non-trivial: some varblock with >= 2 non-zero coefficients or a non-zero coefficient away from (0,0); distinct by FNV of layout, placements, contents and LF values.")
+        format!("choice sequence -> block-info grid holding one main varblock (27 types, weights fall with size; optional 8x8-family filler varblocks; or a full tiling of 8x8-family types under a generated jpeg_upsampling triple) x per channel and varblock a coefficient block {{LF only, unit/scaled impulse at a generated position, sparse, dense, integer-valued with frequency decay, magnitudes to 2^40, all coefficients adding up in one sample}} derived from a splitmix64 seeded from the choices x LF image {{zero, constant, random, 1e9-scale, one basis function of the bw8 x bh8 DCT = a single LLF coefficient}} x buffer placement {{32-byte aligned, 16-byte aligned, origin offset by 1-3 floats, stride not a multiple of 4, window at (x0, y0) of a wider buffer}}; both entry points run on private copies. Fixed cases: per type a unit-impulse sweep (every position up to 32x32, a deterministic sample above; LLF-corner positions driven through an LF image that yields that single LLF coefficient: both axes and the diagonal of the corner in the quick tier, the whole corner in the thorough tier) on an aligned and a misaligned placement with the Gram matrix of the responses. Oracle: |out - ref| <= min(K2 * sqrt(N) * |c|_2, K1 * |c|_1) + {ABS_FLOOR:e} ((family, K2, K1) = {K_TABLE:?}) against jxlref::models::idct (f64, from the definitions; c = coefficients after LLF-from-LF), generic vs arch within half of that; every buffer element outside the processed varblocks bit-identical; invariants without shared tables: LF-only block -> 8x8 box averages equal the LF samples (constant LF -> constant block), Parseval for plain DCTs, impulse responses orthogonal with the norms the definitions imply (|gram - expected| <= {K_GRAM:e} * N * (|r_a| + |r_b|)). Non-trivial: some varblock with >= 2 non-zero coefficients or a non-zero coefficient away from (0,0); distinct by FNV of layout, placements, contents and LF values.")
     }
     fn assumptions(&self) -> Vec<String> {
         vec![
@@ -993,26 +1030,50 @@ impl Check for C16 {
         o
     }
     fn extra_coverage(&self) -> Vec<(String, Value)> {
+        // observed maxima of max|diff| / (sqrt(N)|c|_2) ("l2") and max|diff| / |c|_1 ("l1")
+        let names = ["generic_vs_definition", "arch_vs_definition", "generic_vs_arch"];
         let mut per_type = serde_json::Map::new();
-        let mut fam: std::collections::BTreeMap<&str, [f64; 4]> = Default::default();
+        let mut fam: std::collections::BTreeMap<&str, [f64; 7]> = Default::default();
         for t in 0..NUM_TYPES {
-            let r: Vec<f64> = (0..3).map(|k| f64::from_bits(MAX_RATIO[t][k].load(Ordering::Relaxed))).collect();
-            let gr = f64::from_bits(MAX_GRAM[t].load(Ordering::Relaxed));
-            per_type.insert(TYPES[t].name.into(), json!({"generic_vs_definition": r[0], "arch_vs_definition": r[1], "generic_vs_arch": r[2], "gram": gr}));
+            let r2: Vec<f64> = (0..3).map(|k| f64::from_bits(MAX_RATIO[t][k].load(Ordering::Relaxed))).collect();
             let r1: Vec<f64> = (0..3).map(|k| f64::from_bits(MAX_RATIO1[t][k].load(Ordering::Relaxed))).collect();
-            eprintln!("L1 {} {:.3e} {:.3e} {:.3e}", TYPES[t].name, r1[0], r1[1], r1[2]);
-            let e = fam.entry(family_name(t)).or_insert([0.0; 4]);
+            let gr = f64::from_bits(MAX_GRAM[t].load(Ordering::Relaxed));
+            let mut m = serde_json::Map::new();
             for k in 0..3 {
-                e[k] = e[k].max(r[k]);
+                m.insert(format!("{}_l2", names[k]), json!(r2[k]));
+                m.insert(format!("{}_l1", names[k]), json!(r1[k]));
             }
-            e[3] = e[3].max(gr);
+            m.insert("gram".into(), json!(gr));
+            per_type.insert(TYPES[t].name.into(), Value::Object(m));
+            let e = fam.entry(family_name(t)).or_insert([0.0; 7]);
+            for k in 0..3 {
+                e[k] = e[k].max(r2[k]);
+                e[3 + k] = e[3 + k].max(r1[k]);
+            }
+            e[6] = e[6].max(gr);
         }
-        let fam_json: serde_json::Map<String, Value> = fam.into_iter().map(|(k, v)| (k.to_string(), json!({"generic_vs_definition": v[0], "arch_vs_definition": v[1], "generic_vs_arch": v[2], "gram": v[3]}))).collect();
+        let mut fam_json = serde_json::Map::new();
+        for (f, v) in fam {
+            let (k2, k1) = K_TABLE.iter().find(|e| e.0 == f).map(|e| (e.1, e.2)).unwrap();
+            // margin = frozen tolerance / worst observed; for the path comparison the tolerance is halved
+            let margin = |k: f64, obs: f64| if obs > 0.0 { json!(((k / obs) * 10.0).round() / 10.0) } else { json!("inf") };
+            fam_json.insert(
+                f.to_string(),
+                json!({
+                    "K2": k2, "K1": k1,
+                    "observed_l2": {"generic_vs_definition": v[0], "arch_vs_definition": v[1], "generic_vs_arch": v[2]},
+                    "observed_l1": {"generic_vs_definition": v[3], "arch_vs_definition": v[4], "generic_vs_arch": v[5]},
+                    "margin_l2": {"vs_definition": margin(k2, v[0].max(v[1])), "generic_vs_arch": margin(k2 / 2.0, v[2])},
+                    "margin_l1": {"vs_definition": margin(k1, v[3].max(v[4])), "generic_vs_arch": margin(k1 / 2.0, v[5])},
+                    "observed_gram": v[6], "margin_gram": margin(K_GRAM, v[6]),
+                }),
+            );
+        }
         vec![
             ("varblocks_checked".into(), json!(BLOCKS.load(Ordering::Relaxed))),
             ("sweep_impulse_positions".into(), json!(IMPULSE_POSITIONS.load(Ordering::Relaxed))),
-            ("frozen_tolerances".into(), json!({"K_REF_per_family": K_TABLE.iter().map(|e| (e.0.to_string(), json!(e.1))).collect::<serde_json::Map<String, Value>>(), "K_PATHS": "K_REF / 2", "K_GRAM": K_GRAM, "ABS_FLOOR": ABS_FLOOR, "unit": "max|diff| / (sqrt(N) * |c|_2)"})),
-            ("observed_max_ratio_per_family".into(), Value::Object(fam_json)),
+            ("frozen_tolerances".into(), json!({"rule": "|diff| <= min(K2 * sqrt(N) * |c|_2, K1 * |c|_1) + ABS_FLOOR; generic vs arch: half of it", "K_GRAM": K_GRAM, "ABS_FLOOR": ABS_FLOOR})),
+            ("tolerances_and_observed_maxima_per_family".into(), Value::Object(fam_json)),
             ("observed_max_ratio_per_type".into(), Value::Object(per_type)),
         ]
     }
